@@ -308,7 +308,7 @@ theorem onRecord_vstep (C : Crypto) (L : Loc) (e : Ep) (ct : Nat) (a : Bool) (pl
   split
   · exact VSteps.of_eq (by simp [view, ok])
   · split
-    · exact .refl _
+    · split <;> exact .refl _
     · split
       · exact procPayload_vstep ..
       · split
@@ -342,6 +342,57 @@ theorem onDatagram_vstep (A : DecFn) (C : Crypto) (L : Loc) : ∀ (fuel : Nat) (
             split
             · exact onRecord_vstep ..
             · exact (onRecord_vstep C L e r.ctype (r.epoch != 0) payload).trans (ih _ rest)
+
+/-- a delivery during a datagram happens at an intermediate endpoint state that is Connected -/
+theorem onDatagram_deliver_mid (A : DecFn) (C : Crypto) (L : Loc) : ∀ (fuel : Nat) (e : Ep) (bs p : Bytes),
+    Out.deliver p ∈ (onDatagram A C L fuel e bs).out →
+    ∃ e', VSteps C L (view e) (view e') ∧ VSteps C L (view e') (view (onDatagram A C L fuel e bs).ep) ∧
+      e'.conn = .connected := by
+  intro fuel
+  induction fuel with
+  | zero => intro e bs p h; simp [onDatagram, ok] at h
+  | succ f ih =>
+    intro e bs p h
+    unfold onDatagram at h ⊢
+    split at h
+    · simp [ok] at h
+    · rename_i hne
+      simp only [hne, if_false]
+      split at h
+      · simp [ok] at h
+      · simp [ok] at h
+      · rename_i r rest hd
+        split at h
+        · rename_i hdrop
+          simp only [hdrop, if_true]
+          exact ih e rest p h
+        · rename_i hdrop
+          simp only [hdrop]
+          split at h
+          · simp [ok] at h
+          · rename_i payload hdec
+            dsimp only at h ⊢
+            have hv := onRecord_vstep C L e r.ctype (r.epoch != 0) payload
+            split at h
+            · rename_i herr
+              simp only [Bool.false_eq_true, if_false, herr, if_true]
+              exact ⟨e, .refl _, hv, onRecord_deliver_connected C L e _ _ _ p h⟩
+            · rename_i herr
+              simp only [Bool.false_eq_true, if_false, herr]
+              simp only [List.mem_append] at h
+              rcases h with h | h
+              · exact ⟨e, .refl _, hv.trans (onDatagram_vstep A C L f _ rest), onRecord_deliver_connected C L e _ _ _ p h⟩
+              · obtain ⟨e', h1, h2, h3⟩ := ih _ rest p h
+                exact ⟨e', hv.trans h1, h2, h3⟩
+
+theorem VStep.evs_mono {C : Crypto} {L : Loc} {a b : View} (s : VStep C L a b) : ∀ ev, ev ∈ a.evs → ev ∈ b.evs := by
+  intro ev h
+  cases s <;> simp [h]
+
+theorem VSteps.evs_mono {C : Crypto} {L : Loc} {a b : View} (s : VSteps C L a b) : ∀ ev, ev ∈ a.evs → ev ∈ b.evs := by
+  induction s with
+  | refl => intro ev h; exact h
+  | step _ s ih => intro ev h; exact s.evs_mono ev (ih ev h)
 
 theorem onPacket_vstep (A : DecFn) (C : Crypto) (L : Loc) (e : Ep) (bs : Bytes) :
     VSteps C L (view e) (view (onPacket A C L e bs).1) := by
